@@ -98,9 +98,10 @@ type W3Run struct {
 	mon                 *raftMonitor
 	baseHit             map[int]int
 	settled             bool
-	lockHeld            map[int]bool // nodes whose catalogue locks were held at a quiescent instant
-	firstPermanentCrash uint64       // event stamp of the first crash in this run (0: none)
-	zeroOnly            bool         // control-plane checks: only the zero group has to converge
+	lockHeld            map[int]bool  // nodes whose catalogue locks were held at a quiescent instant
+	firstPermanentCrash uint64        // event stamp of the first crash in this run (0: none)
+	zeroOnly            bool          // control-plane checks: only the zero group has to converge
+	dsCreatedAt         time.Duration // when the default dataset's creation was acknowledged (its partition groups start then: their 10 s snapshot tickers fire at multiples of 10 s from about here)
 }
 
 func vecOf(id, ver, dim int) []float32 {
@@ -227,11 +228,24 @@ type raftMonitor struct {
 	viol      func(sig, format string, a ...interface{})
 	injected  map[int]bool   // nodes with injected disk errors (fatal is a legal reaction)
 	epoch     map[string]int // node/group -> how often the product deleted / recreated the group's store
+	// shadow state machines: every partition group's log, as first applied by anybody, is
+	// replayed into a stand-alone partition of the same shape; a snapshot labelled with
+	// index L - taken locally or received - must restore to what the shadow held after L
+	shadow  map[uuid.UUID]*shadowPart
+	shapeOf func(group uuid.UUID) (dim, space int, ok bool)
+}
+
+type shadowPart struct {
+	p       *storage.VerifPartition
+	next    uint64            // next index to replay
+	pending map[uint64][]byte // entries seen ahead of next (nil payload: the entry does not change the state)
+	keys    map[uint64]string // index -> contents after it (the last 96 indices)
+	off     bool              // given up (an index was never observed)
 }
 
 func newRaftMonitor(s *Sim, viol func(sig, format string, a ...interface{})) *raftMonitor {
 	m := &raftMonitor{s: s, applied: map[string]uint64{}, appliedBy: map[string]string{}, lastIdx: map[string]uint64{}, leaders: map[string]uint64{},
-		durable: map[string]*durableSample{}, viol: viol, injected: map[int]bool{}, epoch: map[string]int{}}
+		durable: map[string]*durableSample{}, viol: viol, injected: map[int]bool{}, epoch: map[string]int{}, shadow: map[uuid.UUID]*shadowPart{}}
 	s.onApply = m.onApply
 	s.onApplySync = m.onApplySync
 	s.onRaftMsg = m.onRaftMsg
@@ -272,6 +286,7 @@ func (m *raftMonitor) onApply(a applyRec) {
 	} else {
 		m.applied[k] = a.dig
 		m.appliedBy[k] = fmt.Sprintf("n%d (incarnation %d)", m.s.nodeIdx(a.node), a.inc)
+		m.feedShadow(a)
 	}
 	if last, ok := m.lastIdx[nk]; ok {
 		if a.index != last+1 {
@@ -298,6 +313,107 @@ func (m *raftMonitor) onApplySync(n *simNode, group uuid.UUID, index uint64) {
 		m.s.post(func() {
 			m.viol("persist-before-apply/applied-before-durable/"+gname(m.s, group), "group %s: n%d applies index %d while its durable log ends at %d (a crash at this instant loses an entry whose outcome is being acknowledged)", shortG(group), idx, index, last)
 		})
+	}
+}
+
+// feedShadow replays a partition group's entry (seen for the first time) into the group's
+// shadow state machine, strictly in index order.
+func (m *raftMonitor) feedShadow(a applyRec) {
+	if uuid.Equal(a.group, uuid.Nil) || m.shapeOf == nil {
+		return
+	}
+	sh := m.shadow[a.group]
+	if sh == nil {
+		sh = &shadowPart{next: 1, pending: map[uint64][]byte{}, keys: map[uint64]string{}}
+		m.shadow[a.group] = sh
+	}
+	if sh.off || a.index < sh.next {
+		return
+	}
+	sh.pending[a.index] = a.data
+	if len(sh.pending) > 512 {
+		sh.off = true // an index in between was never observed (or the group belongs to no known dataset): not judged
+		return
+	}
+	if sh.p == nil {
+		// the group's first entries can be applied before the harness has seen the answer to
+		// the create request that tells it the dataset's shape: they wait in pending
+		dim, space, ok := m.shapeOf(a.group)
+		if !ok {
+			return
+		}
+		sh.p = storage.NewVerifPartition(uint32(dim), pb.Space(space))
+		sh.keys[0] = contentsKey(sh.p.Dump())
+	}
+	for {
+		data, ok := sh.pending[sh.next]
+		if !ok {
+			return
+		}
+		delete(sh.pending, sh.next)
+		if len(data) > 0 {
+			func() {
+				defer func() {
+					if recover() != nil {
+						sh.off = true
+					}
+				}()
+				if _, _, err := sh.p.Apply(data, uuid.Nil); err != nil {
+					sh.off = true
+				}
+			}()
+			if sh.off {
+				return
+			}
+			sh.keys[sh.next] = contentsKey(sh.p.Dump())
+		} else {
+			sh.keys[sh.next] = sh.keys[sh.next-1]
+		}
+		delete(sh.keys, sh.next-96)
+		sh.next++
+	}
+}
+
+// checkSnapshot: the snapshot the node's log store holds now for the group (just taken
+// locally, or just received) restores to what the log up to its index produces.
+func (m *raftMonitor) checkSnapshot(n *simNode, group uuid.UUID, why string) {
+	sh := m.shadow[group]
+	if uuid.Equal(group, uuid.Nil) {
+		return
+	}
+	if sh == nil || sh.off || sh.p == nil || n.parts == nil || m.s.groupOn(n, group) == nil {
+		return
+	}
+	snap, err := wal.NewBadgerWAL(n.parts.DB, group).Snapshot()
+	if err != nil || len(snap.Data) == 0 {
+		return
+	}
+	want, ok := sh.keys[snap.Metadata.Index]
+	if !ok {
+		m.s.out.Stat("snapshots_not_compared_because_the_shadow_lacks_their_index", 1)
+		return
+	}
+	dim, space, ok := m.shapeOf(group)
+	if !ok {
+		return
+	}
+	got := ""
+	func() {
+		defer func() {
+			if r := recover(); r != nil {
+				got = fmt.Sprintf("restore panicked: %v", r)
+			}
+		}()
+		fresh := storage.NewVerifPartition(uint32(dim), pb.Space(space))
+		if err := fresh.Restore(snap.Data); err != nil {
+			got = "restore failed: " + err.Error()
+			return
+		}
+		got = contentsKey(fresh.Dump())
+	}()
+	m.s.out.Stat("snapshots_compared_with_replay_of_the_log", 1)
+	if got != want {
+		m.viol("snapshot-differs-from-replay/"+firstWord(why), "group %s on n%d: the snapshot labelled with index %d (%s) does not restore to what the log up to %d produces (%d vs %d bytes of canonical contents%s)", shortG(group), n.idx, snap.Metadata.Index, why, snap.Metadata.Index, len(got), len(want), map[bool]string{true: "; " + got, false: ""}[strings.HasPrefix(got, "restore")])
 	}
 }
 
@@ -388,6 +504,9 @@ func (m *raftMonitor) onIO(n *simNode, group uuid.UUID, op string, before bool) 
 			return
 		}
 		m.sample(n, group, op)
+		if strings.Contains(op, "snapshot") {
+			m.checkSnapshot(n, group, op)
+		}
 	})
 }
 
@@ -762,6 +881,19 @@ func (r *W3Run) execOps() {
 					s.out.Stat("datasets_deleted_under_traffic", 1)
 				}
 			}
+		case "wait-tick":
+			// wait until Ms milliseconds before the next firing of the partition groups' 10 s
+			// snapshot tickers, so that what follows straddles the snapshot
+			if r.dsCreatedAt > 0 {
+				period := 10 * time.Second
+				lead := time.Duration(op.Ms) * time.Millisecond
+				next := r.dsCreatedAt
+				for next-lead <= s.now() {
+					next += period
+				}
+				s.runFor(next - lead - s.now())
+				s.out.Stat("workloads_straddling_a_snapshot_tick", 1)
+			}
 		case "track-items":
 			s.trackItems = true
 		case "diskerr":
@@ -1015,6 +1147,19 @@ func runScenario(c *W3Case, prop string, out *Outcome, wantLog bool, before func
 		}()
 		r := &W3Run{s: s, c: c, out: out, ds: map[int]*dsInfo{}, prop: prop, baseHit: map[int]int{}, lockHeld: map[int]bool{}}
 		r.mon = newRaftMonitor(s, r.viol)
+		r.mon.shapeOf = func(group uuid.UUID) (int, int, bool) {
+			for _, info := range r.ds {
+				if info == nil || info.meta == nil {
+					continue
+				}
+				for _, p := range info.meta.GetPartitions() {
+					if string(p.GetId()) == string(group.Bytes()) {
+						return info.dim, info.space, true
+					}
+				}
+			}
+			return 0, 0, false
+		}
 		if !s.formCluster(c.Nodes) {
 			r.viol("cluster-did-not-form", "a fault-free cluster of %d nodes did not form within the bound", c.Nodes)
 			return
@@ -1032,6 +1177,7 @@ func runScenario(c *W3Case, prop string, out *Outcome, wantLog bool, before func
 				return
 			}
 			id := r.ds[0].id
+			r.dsCreatedAt = s.now()
 			if !s.runUntil(func() bool { return r.partitionsReady(id) }, 30*time.Second) {
 				r.viol("partitions-not-ready", "partition groups of a new dataset did not elect leaders within 30 s")
 				return
